@@ -272,3 +272,124 @@ func VH_C03_Legacy() {
 	vassert(vbytesEq(h, sha256dRef(want)), "C03: signature hash is double SHA-256 of the preimage")
 	vreach("c03-ok")
 }
+
+// vhistoryPrefix: histories of calls on one transaction object. A first signature hash and
+// preimage are computed (any input; legacy ALL / legacy SINGLE / ALL|FORKID /
+// SINGLE|ANYONECANPAY|FORKID), the caller then scribbles over the returned byte strings (they
+// are the caller's) and edits the transaction in place without changing the input / output
+// counts. The second computation (in the callers below) must describe the edited transaction
+// exactly as a fresh computation would.
+func vhistoryPrefix() *Tx {
+	tx := vsigtx(vparam("IN", 2), vparam("OUT", 2), vparam("S", 0))
+	idx1 := vnondetU32("idx1")
+	vassume(idx1 < uint32(len(tx.Inputs)))
+	ht1 := []sighash.Flag{0x01, 0x03, 0x41, 0xc3}[vnondetLen("ht1", 0, 3)]
+	h1, e1 := tx.CalcInputSignatureHash(idx1, ht1)
+	var p1 []byte
+	var e2 error
+	if ht1&0x40 != 0 {
+		p1, e2 = tx.CalcInputPreimage(idx1, ht1)
+	} else {
+		p1, e2 = tx.CalcInputPreimageLegacy(idx1, ht1)
+	}
+	vassert(vand(e1 == nil, e2 == nil), "history: first computation succeeds")
+	// the results belong to the caller
+	for i := range h1 {
+		h1[i] = vnondetU8("scribble-h")
+	}
+	if len(p1) > 0 {
+		p1[0] = vnondetU8("scribble-p0")
+		p1[len(p1)-1] = vnondetU8("scribble-pn")
+	}
+	// in-place edit
+	switch vnondetLen("edit", 0, 8) {
+	case 0:
+	case 1:
+		tx.Version = vnondetU32("new-version")
+	case 2:
+		tx.LockTime = vnondetU32("new-locktime")
+	case 3:
+		tx.Inputs[vnondetLen("edit-in", 0, len(tx.Inputs)-1)].SequenceNumber = vnondetU32("new-seq")
+	case 4:
+		tx.Inputs[vnondetLen("edit-in", 0, len(tx.Inputs)-1)].PreviousTxOutIndex = vnondetU32("new-vout")
+	case 5:
+		tx.Inputs[vnondetLen("edit-in", 0, len(tx.Inputs)-1)].previousTxID = vnondetBytes("new-txid", 32, 32)
+	case 6:
+		if len(tx.Outputs) > 0 {
+			tx.Outputs[vnondetLen("edit-out", 0, len(tx.Outputs)-1)].Satoshis = vnondetU64("new-sats")
+		}
+	case 7:
+		if len(tx.Outputs) > 0 {
+			tx.Outputs[vnondetLen("edit-out", 0, len(tx.Outputs)-1)].LockingScript = vscript("new-lock", 1, 1)
+		}
+	case 8:
+		in := tx.Inputs[vnondetLen("edit-in", 0, len(tx.Inputs)-1)]
+		in.PreviousTxSatoshis = vnondetU64("new-prevsats")
+		in.PreviousTxScript = vscript("new-prevscript", 1, 1)
+	}
+	return tx
+}
+
+// vhistoryType: second-call hash type: the six standard ones of the family (quick) or all 128 (ALLHT=1).
+func vhistoryType(forkid bool) sighash.Flag {
+	var ht sighash.Flag
+	if vparam("ALLHT", 0) == 1 {
+		ht = sighash.Flag(vnondetU8("ht2"))
+	} else {
+		ht = []sighash.Flag{0x01, 0x02, 0x03, 0x81, 0x82, 0x83}[vnondetLen("ht2", 0, 5)]
+		if forkid {
+			ht |= 0x40
+		}
+	}
+	vassume((ht&0x40 != 0) == forkid)
+	return ht
+}
+
+// C02 over histories: call, scribble, edit in place, call again (FORKID second call).
+func VH_C02_History() {
+	tx := vhistoryPrefix()
+	idx := vnondetU32("idx2")
+	vassume(idx < uint32(len(tx.Inputs)))
+	ht := vhistoryType(true)
+	in := tx.Inputs[idx]
+	before := tx.ExtendedBytes()
+	got, err := tx.CalcInputPreimage(idx, ht)
+	h, herr := tx.CalcInputSignatureHash(idx, ht)
+	vassert(vand(err == nil, herr == nil), "C02: history: second computation succeeds")
+	if err != nil || herr != nil {
+		return
+	}
+	want := refPreimage143(refFromTx(tx), int(idx), *in.PreviousTxScript, in.PreviousTxSatoshis, uint32(ht))
+	vassert(vbytesEq(got, want), "C02: history: preimage after an in-place edit equals the digest preimage of the edited transaction")
+	vassert(vbytesEq(h, sha256dRef(want)), "C02: history: signature hash after an in-place edit is double SHA-256 of that preimage")
+	vassert(vbytesEq(tx.ExtendedBytes(), before), "C02: history: transaction unchanged by the second computation")
+	vreach("c02-history-ok")
+}
+
+// C03 over histories (legacy second call; the first call may be of either family).
+func VH_C03_History() {
+	tx := vhistoryPrefix()
+	idx := vnondetU32("idx2")
+	vassume(idx < uint32(len(tx.Inputs)))
+	ht := vhistoryType(false)
+	in := tx.Inputs[idx]
+	before := tx.ExtendedBytes()
+	got, err := tx.CalcInputPreimageLegacy(idx, ht)
+	h, herr := tx.CalcInputSignatureHash(idx, ht)
+	vassert(vand(err == nil, herr == nil), "C03: history: second computation succeeds")
+	if err != nil || herr != nil {
+		return
+	}
+	vassert(vbytesEq(tx.ExtendedBytes(), before), "C03: history: transaction unchanged by the second computation")
+	want, one := refPreimageLegacy(refFromTx(tx), int(idx), *in.PreviousTxScript, uint32(ht))
+	if one {
+		c := make([]byte, 32)
+		c[0] = 1
+		vassert(vbytesEq(h, c), "C03: history: SINGLE without matching output still hashes to the constant 1 after the caller wrote into an earlier result")
+		vreach("c03-history-single-bug")
+		return
+	}
+	vassert(vbytesEq(got, want), "C03: history: preimage after an in-place edit equals the original serialisation of the edited transaction")
+	vassert(vbytesEq(h, sha256dRef(want)), "C03: history: signature hash after an in-place edit is double SHA-256 of that preimage")
+	vreach("c03-history-ok")
+}
